@@ -1,6 +1,6 @@
 PROPS["C19"] = dict(
     pkg="p_errors", hooks=[], level="exploration", design="DESIGN.md §4 C19",
-    technique="exhaustive cross-product of class x other class x wrap-text list (depth 0..4) x embedding level x object x gRPC "
+    technique="exhaustive cross-product of class x other class x wrap-text list (depth 0..4) x embedding level x object (Go structs and generated protobuf messages) x gRPC "
               "code x message, exhaustive lists of level forms (several %w, errors.Join with non-class side errors, inner GRPCWrap), systematic message sizes around powers of two up to 64 KiB, batches of chains built before any "
               "is checked + rapid message texts, objects, sizes and batches; relational oracle",
     rule="chain case = (class with a gRPC code, list of 0..4 (thorough: exhaustive 0..5, rapid 0..6) fmt.Errorf(\"%s%w%s\") levels with verbatim pre/post texts, optional "
@@ -48,6 +48,16 @@ PROPS["C19"] = dict(
          "from the embedded object's JSON text into a target of the same kind (re-marshalled; RawMessage/[]byte texts compared after a decode through interface{}), and then OVERWRITTEN IN PLACE by the caller (every byte of the RawMessage/[]byte, every field, element and map entry of the decoded values) - "
          "what ExtractObject filled in belongs to the caller - before the plain *Obj extraction of the stage and all later stages run; at the end the plain extraction is repeated on the result of EmbedObject, the finished chain, GRPCWrap(e) and a fresh GRPCWrap(e). "
          "rapid: half of the chains with an object, kind drawn; exhaustive: every list up to depth 2 over 6 styles x 10 classes x embedding level x 5 objects x (no target + 6 kinds), half of the combinations at depth 2. "
+         "GENERATED PROTOBUF MESSAGES AS OBJECTS AND TARGETS: the embedded object may be a generated message (the natural payload of a gRPC service; a Go struct with json tags for the json.Marshal/json.Unmarshal that EmbedObject/ExtractObject document), "
+         "embedded by pointer as users do and extracted into a FRESH message of the same type; equal = proto.Equal with a message built from the same description that was never given to the library AND the same json.Marshal text. "
+         "Message types are the ones reachable offline through the library's own dependencies, 25 kinds: flat ones of google.golang.org/genproto/googleapis/rpc/errdetails (ErrorInfo with a string map, DebugInfo with repeated strings, ResourceInfo, RequestInfo, LocalizedMessage, "
+         "BadRequest / QuotaFailure / PreconditionFailure / Help with repeated flat sub-messages), messages that hold well-known types (errdetails.RetryInfo{Duration}, the library's own kvs record golibskvspb.Record{bytes, Timestamp, optional Timestamp}, rpc status.Status{repeated Any}) and well-known types themselves "
+         "(Timestamp, Duration, Any, FieldMask, Empty, Struct with string/number/bool/null/list/nested values - it brings its own MarshalJSON -, String/Bytes/Int64/UInt64/Int32/Bool/DoubleValue). A message is plain data in the case (kind + texts + numbers + byte strings, filled in a fixed kind-specific way; absent elements = zero value / absent sub-message); "
+         "string fields are valid UTF-8 as proto3 demands (marker, JSON-like and HTML texts included), bytes fields hold arbitrary bytes, timestamps/durations are brought into their documented ranges, doubles are finite (NaN/Inf are not marshalable - EmbedObject documents that it returns err unchanged then). "
+         "Caller-owned targets of such a chain: a message of the same type (fresh per stage, then overwritten in place through protoreflect: every byte of bytes fields, every scalar, element and map entry at every depth) or any/map/RawMessage/[]byte as above (compared with what encoding/json decodes from the message's JSON text). "
+         "exhaustive: every list up to depth 2 over (plain text, JSON-like text, inner GRPCWrap, Join with a side error) x 10 classes x embedding level x 75 messages (3 per kind: empty, populated with hard texts/bytes/extreme numbers, small) x (fresh message + 6 owned kinds), a third of the combinations at depth 2; "
+         "rapid: one embedded object in four, half of them from the kinds with sub-messages of well-known types; batches put the chain's position into the message. Length targets of such chains pad wrap texts only; object-size targets do not apply. Verified first that the unchanged library round-trips all 25 kinds at every stage. "
+         "Not covered: messages with oneof fields of interface type (encoding/json cannot decode into them - outside what EmbedObject/ExtractObject promise), re-use of one message variable across extractions (json.Unmarshal merges into a used struct), proto2 / unknown fields / extensions. "
          "RAW BYTES: error texts and object strings are Go strings, not necessarily UTF-8. Inside a case every text is valid UTF-8 and a rune U+F780..U+F7FF stands for the raw byte 0x80..0xFF (so the JSON form of the case is exact); the library gets the decoded bytes. "
          "Wrap texts, side texts, object strings / keys and code messages may hold invalid bytes (Latin-1, lone continuation bytes, truncated sequences, surrogates, overlong forms, 0xFF) and genuine U+FFFD characters "
          "(one rapid chain in six draws two thirds of its texts from such pieces, so that raw bytes in the wrapping meet U+FFFD in the object's JSON text; exhaustive: 4 raw styles, 2 raw objects in the section above, 2 raw code messages). "
@@ -64,6 +74,8 @@ PROPS["C19"] = dict(
                  "an error value and its embedded object must not depend on errors created after it (batches)",
                  "a value filled in by ExtractObject belongs to the caller: writing to it must not change what the error, or a status error made from it, "
                  "renders and yields afterwards (errors are immutable values; encoding/json copies what it decodes and asks the same of an Unmarshaler)",
+                 "a generated protobuf message is an ordinary object for EmbedObject/ExtractObject (a struct with json tags, encoded and decoded by encoding/json, as documented): its encoding/json form, not the canonical protobuf JSON form, is what travels in the error text; "
+                 "'the same object' for a message is proto.Equal (nil and empty repeated/bytes fields coincide, an absent and an empty sub-message do not) plus an identical json.Marshal text",
                  "for objects whose strings are not valid UTF-8 'the same object' means the object the library extracts right after EmbedObject (JSON cannot carry the invalid bytes)",
                  "'any chain of wrapping around it' is read to include the standard library's other %w forms (several %w verbs, errors.Join) "
                  "as long as the class is the only class in the tree, and chains in which GRPCWrap (idempotent by the statement) was already "
@@ -86,5 +98,6 @@ LEVEL_TEXT["C19"] = (
     "error trees built with several %w verbs and errors.Join around one class (side branches holding context errors, io.EOF, plain errors) "
     "and layered chains with GRPCWrap at inner levels are enumerated to depth 3 as well; "
     "chains of up to 5000 links (16385 in the thorough tier) are run at depths around every power of two and ten; "
+    "generated protobuf messages (errdetails, rpc status, the kvs record, well-known types) are embedded and extracted into fresh messages of the same type; "
     "not a proof for other wrapping forms (custom error types, several classes in one tree) or still deeper chains."
 )
